@@ -1020,6 +1020,7 @@ def wallet_spec_strategy(ctx, max_ops=6):
         'seeds': st.lists(st.binary(min_size=16, max_size=32).map(bytes.hex), min_size=3, max_size=3, unique=True),
         'private': st.sampled_from([[True, False, False], [True, True, False], [True, True, True]]),
         'import_secret': secret_strategy().map(lambda d: '%x' % d),
+        'from_account': st.sampled_from([False, False, True]),
         'history': st.lists(st.sampled_from(WALLET_OPS + ['get_key', 'utxos_update', 'send_own']), min_size=2,
                             max_size=max_ops),
         'rng': st.integers(0, 0xffffffff),
@@ -1033,12 +1034,20 @@ def _wallet_inputs(spec):
     wt = spec['witness_type']
     masters = [bip32.master(bytes.fromhex(s)) for s in spec['seeds']]
     if spec['wtype'] == 'hd':
+        if spec.get('from_account'):
+            # a spending wallet made from the PRIVATE key of the account level (what public_master(as_private=True)
+            # exports), not from the BIP32 root
+            acc = bip32.derive(masters[0], _pm_path(net, wt, False))
+            return masters, acc.xkey(_xver(net, True, wt, False), private=True)
         return masters, masters[0].xkey(_xver(net, True, wt, False), private=True)
     if spec['wtype'] == 'single':
         return masters, address.wif(masters[0].secret, net, True)
     keys = []
     for m, priv in zip(masters, spec['private']):
-        if priv:
+        if priv and spec.get('from_account'):
+            acc = bip32.derive(m, _pm_path(net, wt, True))
+            keys.append(acc.xkey(_xver(net, True, wt, True), private=True))
+        elif priv:
             keys.append(m.xkey(_xver(net, True, wt, True), private=True))
         else:
             acc = bip32.derive(m, _pm_path(net, wt, True))
@@ -1169,6 +1178,30 @@ def _wallet_secrets(spec, rows, secrets):
             p = _parse_path(r[pi])
             if p is not None:
                 paths.add(tuple(p))
+    if spec.get('from_account') and spec['wtype'] in ('hd', 'multisig'):
+        # the wallet was made from the private ACCOUNT key: the keys table holds paths relative to it ('M', 'M/0/3')
+        rel = set()
+        if 'path' in cols:
+            for r in data:
+                s_ = r[pi] or ''
+                if s_ == 'M' or s_.startswith('M/'):
+                    p = _parse_path('m' + s_[1:])
+                    if p is not None:
+                        rel.add(tuple(p))
+        for n, m in enumerate(priv):
+            base = bip32.derive(m, _pm_path(spec['network'], spec['witness_type'], spec['wtype'] == 'multisig'))
+            secrets.add_xkey(base, 'account%d' % n)
+            cache = {(): base}
+            for p in sorted(rel):
+                for j in range(1, len(p) + 1):
+                    pre = p[:j]
+                    if pre in cache:
+                        continue
+                    try:
+                        cache[pre] = bip32.ckd_priv(cache[pre[:-1]], pre[-1])
+                    except (ValueError, KeyError):
+                        break
+                    secrets.add_xkey(cache[pre], 'account%d/%s' % (n, _fmt_path(pre)))
     for n, m in enumerate(priv):
         cache = {(): m}
         secrets.add_xkey(m, 'master%d' % n)
